@@ -86,11 +86,11 @@ def build(config, quiet=True):
         libname = "libsafec.so" if cfg["kind"] == "shared" else "libsafec.a"
         if os.path.exists(os.path.join(out, "OK")):
             return out
-        # remove stale builds of this config (disk)
-        for d in os.listdir(base):
-            p = os.path.join(base, d)
-            if os.path.isdir(p):
-                shutil.rmtree(p, ignore_errors=True)
+        # remove stale builds of this config (disk): keep the 3 most recent
+        old = sorted((os.path.join(base, d) for d in os.listdir(base) if os.path.isdir(os.path.join(base, d))),
+                     key=lambda p: os.path.getmtime(p), reverse=True)
+        for p in old[3:]:
+            shutil.rmtree(p, ignore_errors=True)
         os.makedirs(os.path.join(out, "obj"))
         inc = os.path.join(out, "inc")
         os.makedirs(os.path.join(inc, "include"))
